@@ -176,6 +176,10 @@ fn generate(rng: &mut Rng) -> C14Sc {
                 let it = if rng.chance(1, 2) { 2 } else { 3 };
                 spec = ClientSpec::base(rng, it);
                 spec.mute_after = Some(*frames);
+                // idle first, then stalling: the first byte comes late (the deadline still counts from the admission)
+                if proxy.is_none() && timeout_s >= 5 && rng.chance(1, 3) {
+                    spec.cuts.push(Cut { at: 0, gate: Gate::Delay { ns: secs(timeout_s) / 100 * rng.range(30, 90) }, spurious: 0 });
+                }
             }
             Role::EchoForever => {
                 spec = ClientSpec::base(rng, 2);
@@ -446,6 +450,9 @@ impl Check for C14 {
         }
         if sc.net.clients.iter().any(|c| c.spec.cuts.iter().any(|k| k.at < plen_of(c))) {
             *rep.faults.entry("proxy_header_trickles_in".into()).or_insert(0) += 1;
+        }
+        if sc.net.clients.iter().any(|c| c.spec.preamble.is_none() && c.spec.cuts.iter().any(|k| k.at == 0)) {
+            *rep.faults.entry("client_first_byte_late_then_stalls".into()).or_insert(0) += 1;
         }
         for r in &sc.roles {
             let name = match r {
